@@ -261,6 +261,23 @@ pub fn record(args: &Args) {
                 failed.push(json!({"what": "solve with two threads failed on a valid game", "error": format!("{e:?}"), "tree": t}));
             }
         }
+        // ... and of a run whose average-strategy mass is a subnormal number (one iteration discounted by (1/2)^1040: legal
+        // parameters; the profile is the normalised mass all the same)
+        for k in [1usize, 2] {
+            cfr::verif::set_draw_seed(Some(seed.wrapping_add(id)));
+            let par = cfr::RegretParams::new(1.5, 0.0, 1040.0, f64::INFINITY);
+            match util::catch(std::panic::AssertUnwindSafe(|| game.solve(method, 1, 0.0, k, Some(par)))) {
+                Ok(Ok((strat3, _))) => {
+                    cfr::verif::reset();
+                    events += record_profile(&mut out, &game, &strat3, "solved-vanishing-mass");
+                    runs += 1;
+                }
+                other => {
+                    cfr::verif::reset();
+                    failed.push(json!({"what": "solve with a strategy discount of 1040 failed on a valid game", "error": format!("{:?}", other.map(|r| r.map(|_| ()))), "tree": t}));
+                }
+            }
+        }
         if samples.len() < 2 {
             samples.push(json!({"tree": t, "method": format!("{method:?}"), "iters": iters}));
         }
